@@ -250,7 +250,7 @@ fn frames_summary(fs: &[Frame]) -> String {
             c => format!("{}:{}:{}", u8::from(c), f.stream_id, f.data.len()),
         })
         .collect::<Vec<_>>()
-        .join("/")
+        .join("~")
 }
 
 type Slot = Arc<Mutex<Option<(WHandle, mpsc::UnboundedSender<REv>, Option<WHandle>)>>>;
